@@ -213,6 +213,24 @@ func runSyncQ(c *Ctx, prop string) {
 			}
 		}
 	}
+	if prop == "C12" {
+		if fn := c.mustFn(rel, "(*SyncQueue).Len"); fn != nil {
+			traces, _ := c.Trace(fn, TraceConfig{})
+			ok := len(traces) > 0
+			for _, t := range traces {
+				good := false
+				for _, e := range t.Events {
+					if bufCall(e, "Length") && t.End == EndReturn && t.Ret[0].Key() == e.Res.Key() {
+						good = true
+					}
+				}
+				if !good {
+					ok = false
+				}
+			}
+			c.check(ok, "C12.syncq", "(*"+tname+").Len", fn.Pos(), "buffer.Length()", "Len does not report the buffer's length")
+		}
+	}
 	if prop == "C13" {
 		// popable = sync.NewCond(&ch.lock)
 		ok := false
@@ -267,6 +285,24 @@ func runPriQ(c *Ctx, prop string) {
 		checkPriLess(c, rel, seq, entry)
 	}
 	isEntriesAddr := func(s *Sym) bool { return s.strip().isFieldAddrOf(entries) }
+	if prop == "C12" {
+		if fn := c.mustFn(rel, "(*PriQueue).Len"); fn != nil {
+			traces, _ := c.Trace(fn, cfg)
+			ok := len(traces) > 0
+			for _, t := range traces {
+				r := t.Ret[0]
+				good := r.Kind == KOp && r.Name == "len"
+				if good {
+					_, isE := isInitOfField(r.Args[0], entries)
+					good = isE
+				}
+				if !good {
+					ok = false
+				}
+			}
+			c.check(ok, "C12.priq", "(*"+tname+").Len", fn.Pos(), "len(entries)", "Len does not report the number of queued entries")
+		}
+	}
 	for _, fn := range methods {
 		name := "(*" + tname + ")." + fn.Name()
 		traces, complete := c.Trace(fn, cfg)
